@@ -101,3 +101,12 @@ CLAIMED['C09'] = (
     'two-step composition (facts about the grid, then graph builder on arbitrary grids with these facts); z3.',
     'DESIGN.md §3 C09')
 NOT_APPLICABLE.pop('C09', None)
+CLAIMED['C10'] = (
+    'symbolic execution of free_energy_graph / optimal_path / optimal_percolating_path / Pathway on symbolic voxel energies; networkx.shortest_path by its contract; z3 per-path obligations against all simple paths',
+    'For every energy assignment (blocked or passable voxels) on the bounded grids: graph nodes/edges/weights are exactly the admissible voxels/neighbour pairs, returned paths are valid, '
+    'report the voxel energies and are proved minimal against every simple path of the oracle\'s own periodic neighbourhood for each method; percolating paths end one cell away and wrap into the grid; '
+    'wrapped/fractional sites per axis for arbitrary integer sites. Two listed known findings (missing corner moves, dead minmax-energy branch) are reported as KNOWN-FINDING.',
+    'networkx.shortest_path replaced by its contract (minimum-weight simple path; cross-checked by executing real networkx on the 2x2x1 grid in the thorough tier); EXP uninterpreted monotone; '
+    'start voxel fixed by translation symmetry; grids bounded by the number of simple paths; z3.',
+    'DESIGN.md §3 C10')
+NOT_APPLICABLE.pop('C10', None)
